@@ -147,7 +147,7 @@ pub fn run_c05(ctx: &Ctx) -> i32 {
     let mut st = TreeStats::default();
     let starts = build_starts(ctx, &homes, &mut st);
     let blocks = with_world(false, |w| block_starts(w, &starts.genesis));
-    let (funds_hi, core_hi, rich_hi) = ctx.tier.pick((4, 5, 3), (5, 6, 4));
+    let (funds_hi, core_hi, rich_hi) = ctx.tier.pick((3, 5, 3), (4, 6, 4));
     st = st.merge(drive(ctx, &Funds::new(1, funds_hi), &[starts.genesis.clone()], false, &homes, &sampler));
     st = st.merge(drive(ctx, &Funds::new(1, funds_hi - 1), &blocks[1..], false, &homes, &sampler));
     st = st.merge(drive(
@@ -164,7 +164,7 @@ pub fn run_c05(ctx: &Ctx) -> i32 {
         &st,
         blocks.len() + starts.fixed.len(),
         &sampler,
-        json!({"funds_family_size_max": funds_hi, "funds_choices": ["none", "1x", "1x+2y", "100x (more than anyone owns)"], "core_size_max": core_hi, "blocks": blocks.iter().map(|b| format!("{} h={} t={} chain={}", b.name, b.block.height, b.block.time.nanos(), b.block.chain_id)).collect::<Vec<_>>()}),
+        json!({"funds_family_size_max": funds_hi, "funds_choices": ["none", "1x", "1x+2y", "100x (more than anyone owns)", "1x+2x (one denomination twice)", "0x (no positive amount)", "0x+1y"], "core_size_max": core_hi, "blocks": blocks.iter().map(|b| format!("{} h={} t={} chain={}", b.name, b.block.height, b.block.time.nanos(), b.block.chain_id)).collect::<Vec<_>>()}),
         vec![],
         vec![],
         json!({}),
